@@ -203,6 +203,13 @@ def observe(run, B=None):
     ev['interp_ok'] = bool(interp_ok)
     ev['multilinear_ok'] = bool(ml_ok)
     ev['_detail'] = detail
+    # the observation ends with the query it started with: the next state is then asked the SAME points back to back (an answer remembered
+    # from the previous state would show as an owner that is no leaf any more)
+    try:
+        with impl.quiet():
+            c.get_points_assignement_to_areas(probe)
+    except Exception:
+        pass
     return ev
 
 
@@ -315,6 +322,11 @@ def random_history(rng, c, steps):
             # always refine the leaf that contains a fixed corner of the domain (a point singularity)
             corner = [run.b[d] if (c['chain'] >> d) & 1 else run.a[d] for d in range(run.D)]
             B = [10 if all(o.start[d] <= corner[d] <= o.end[d] for d in range(run.D)) else 0 for o in run.leaves()]
+        elif c.get('sweep') is not None:
+            # one leaf per step, the leaves visited in turn: after the first extend that raises lmax the following steps extend single areas whose
+            # coarsening value is positive (the leaf is replaced by a new object with the same box, neither the number of leaves nor lmax change)
+            k = (len(script) * c['sweep']) % n
+            B = [10 if i == k else 0 for i in range(n)]
         elif c.get('dense'):
             B = [10 if rng.random() < 0.5 else rng.randint(0, 6) for _ in range(n)]
             if 10 not in B:
